@@ -17,6 +17,10 @@ import (
 type tspCase struct {
 	N int
 	W [][]int // W[i][j] for j < i: the weight of edge ij (row i has i entries)
+	// a weight function that itself writes a sub-problem: when ReN > 0, weights(ReI, ReJ) calls LIB for ReN cities
+	// (weights 7i+j) on a writer of its own before it returns
+	ReI, ReJ, ReN int    `json:",omitempty"`
+	Sample        uint64 `json:",omitempty"` // n > 64: which write indices get a fault (all of them for smaller n)
 }
 
 func genTspCase(t *rapid.T) tspCase {
@@ -43,7 +47,27 @@ func genTspCase(t *rapid.T) tspCase {
 			}
 		}
 	}
-	return tspCase{N: n, W: w}
+	c := tspCase{N: n, W: w}
+	if n >= 2 && rapid.IntRange(0, 3).Draw(t, "reentrant") == 0 {
+		c.ReI = rapid.IntRange(1, n-1).Draw(t, "rei")
+		c.ReJ = rapid.IntRange(0, c.ReI-1).Draw(t, "rej")
+		c.ReN = rapid.IntRange(1, 6).Draw(t, "ren")
+	}
+	return c
+}
+
+// genHugeTspCase: 129..140 cities (beyond any "small problem" code path), regular weights, sampled fault positions.
+func genHugeTspCase(t *rapid.T) tspCase {
+	n := rapid.SampledFrom([]int{65, 100, 127, 128, 129, 130, 140, 200}).Draw(t, "n")
+	mul := rapid.SampledFrom([]int{1, 1, 1000, -1, 1 << 40}).Draw(t, "scale")
+	w := make([][]int, n)
+	for i := range w {
+		w[i] = make([]int, i)
+		for j := range w[i] {
+			w[i][j] = mul * (i*n + j)
+		}
+	}
+	return tspCase{N: n, W: w, Sample: rapid.Uint64().Draw(t, "sample") | 1}
 }
 
 var errInjected = errors.New("injected write failure")
@@ -149,9 +173,28 @@ func checkTspCase(c tspCase, rec *Rec) error {
 	weights := func(i, j int) int {
 		if !(0 <= j && j < i && i < n) {
 			if badCall.Load() == nil {
-				badCall.Store(fmt.Sprintf("weights(%d,%d)", i, j))
+				badCall.Store(fmt.Sprintf("called weights(%d,%d)", i, j))
 			}
 			return -424242
+		}
+		if c.ReN > 0 && i == c.ReI && j == c.ReJ {
+			// the weight function writes a sub-problem of its own while the outer call is in progress
+			inner := &faultWriter{failAt: -1}
+			var ierr error
+			if p := try(func() { ierr = tsp.LIB(inner, c.ReN, func(a, b int) int { return 7*a + b }) }); p != nil || ierr != nil {
+				badCall.CompareAndSwap(nil, fmt.Sprintf("a nested LIB(n=%d) inside weights(%d,%d) failed: %v %v", c.ReN, i, j, p, ierr))
+			} else {
+				var iw []int
+				for a := 0; a < c.ReN; a++ {
+					for b := 0; b < a; b++ {
+						iw = append(iw, 7*a+b)
+					}
+					iw = append(iw, 0)
+				}
+				if got, perr := parseTSPLIB(string(inner.buf), c.ReN); perr != nil || !eqInts(got, iw) {
+					badCall.CompareAndSwap(nil, fmt.Sprintf("a nested LIB(n=%d) inside weights(%d,%d) wrote %q (%v)", c.ReN, i, j, clip(string(inner.buf), 300), perr))
+				}
+			}
 		}
 		return c.W[i][j]
 	}
@@ -162,7 +205,7 @@ func checkTspCase(c tspCase, rec *Rec) error {
 		return fmt.Errorf("LIB(n=%d) panicked: %v", n, p)
 	}
 	if b := badCall.Load(); b != nil {
-		return fmt.Errorf("LIB(n=%d) called %s, outside 0 <= j < i < n", n, b)
+		return fmt.Errorf("LIB(n=%d): %s (weights must only be called with 0 <= j < i < n; a weight function may write another problem)", n, b)
 	}
 	if err != nil {
 		return fmt.Errorf("LIB(n=%d) returned %v although no write failed", n, err)
@@ -191,7 +234,22 @@ func checkTspCase(c tspCase, rec *Rec) error {
 		variants = [][2]bool{{false, false}, {true, true}}
 		rec.Label("large-n-two-variants-per-write")
 	}
+	if c.ReN > 0 {
+		rec.Label("reentrant-weight-function")
+	}
+	faultAt := func(f int) bool { return true }
+	if n > 64 {
+		// tens of thousands of writes: the first and last 12 write indices and about 40 pseudo-random ones in between
+		rec.Label("huge-n-sampled-write-indices")
+		every := uint64(max(1, W/40))
+		faultAt = func(f int) bool {
+			return f < 12 || f >= W-12 || hashPrefix(c.Sample, []int{f})%every == 0
+		}
+	}
 	for f := 0; f < W; f++ {
+		if !faultAt(f) {
+			continue
+		}
 		for _, vr := range variants {
 			perm := vr[0]
 			for _, partial := range []bool{vr[1]} {
@@ -262,8 +320,11 @@ func clipInts(a []int) string {
 
 func init() {
 	RegisterRapid("C20_output_and_faults",
-		"rapid generates (n in 0..9 quick / 0..24 thorough, weight table with zero, negative, >= 2^40, int boundary (MinInt64, MaxInt64, ...) and position-dependent entries; about one case in three hundred (thorough: sixty) has n in 31..34 (40), where every write index is still enumerated but with two of the four variants; the weight function flags any call outside 0 <= j < i < n). Per case: the fault-free output is parsed by an independent TSPLIB reader and compared with the table; then the fault space is ENUMERATED COMPLETELY: for every index f of the W Write calls of the fault-free run x {only call f fails, f and all later calls fail} x {0 bytes accepted, half accepted}, plus {only call f fails, all bytes accepted but an error returned}, LIB must return a non-nil error (5*W schedules per case); a fault-free call after all the failing ones must reproduce the first output byte for byte. Non-trivial: n >= 2 (the tabwriter-buffered weight section is non-empty).",
+		"rapid generates (n in 0..9 quick / 0..24 thorough, weight table with zero, negative, >= 2^40, int boundary (MinInt64, MaxInt64, ...) and position-dependent entries; about one case in three hundred (thorough: sixty) has n in 31..34 (40), where every write index is still enumerated but with two of the four variants; the weight function flags any call outside 0 <= j < i < n; in a quarter of the cases one cell of the weight function itself calls LIB for a 1..6 city sub-problem on another writer, whose output must be right as well). Per case: the fault-free output is parsed by an independent TSPLIB reader and compared with the table; then the fault space is ENUMERATED COMPLETELY: for every index f of the W Write calls of the fault-free run x {only call f fails, f and all later calls fail} x {0 bytes accepted, half accepted}, plus {only call f fails, all bytes accepted but an error returned}, LIB must return a non-nil error (5*W schedules per case); a fault-free call after all the failing ones must reproduce the first output byte for byte. Non-trivial: n >= 2 (the tabwriter-buffered weight section is non-empty).",
 		Budget{Checks: 1200, Shards: 1}, Budget{Checks: 3000, Shards: 16}, genTspCase, checkTspCase)
+	RegisterRapid("C20_many_cities_sampled_faults",
+		"rapid: n in {65, 100, 127, 128, 129, 130, 140, 200} with the position-coded table scale*(i*n+j), scale in {1, 1000, -1, 2^40}; the fault-free output (tens of thousands of Write calls) is parsed and compared; faults (transient with 0 or all bytes accepted, permanent with half) are injected at the first 12 and the last 12 write indices and at about 40 pseudo-random indices in between. Non-trivial: always (n >= 65).",
+		Budget{Checks: 8, Shards: 2}, Budget{Checks: 24, Shards: 16}, genHugeTspCase, checkTspCase)
 	RegisterEnum("C20_small_n_exhaustive_faults",
 		"enumeration: every n in 0..12 with the fixed position-coded table w(i,j) = 100*i+j (and its negation), all 4*W fault schedules each; complete for that family.",
 		true, Budget{Shards: 1}, Budget{Shards: 1},
